@@ -10,10 +10,10 @@ change a character).  The Pygments lexer is a PARAMETER: the model receives the 
 theorems assume the contract `tokens.flatten = pygPre … (code handed to the lexer)`.
 
 Every definition mirrors the Python statement by statement; quirks are kept.  Two *variant flags* exist:
-  `stripnl`     true  = today's `get_lexer_by_name(name)` (Pygments default `stripnl=True`),
-                false = repaired `get_lexer_by_name(name, stripnl=False)`;
-  `skipRaises`  true  = today's bare `next(tokens)` in `tokens_to_spans` (StopIteration inside a generator
-                        becomes RuntimeError), false = repaired `except StopIteration: break`.
+  `stripnl`     true  = the `get_lexer_by_name(name)` of rich 9.10.0 as found (Pygments default `stripnl=True`),
+                false = repaired `get_lexer_by_name(name, stripnl=False)` (fix 92fb879, what /repo contains now);
+  `skipRaises`  true  = the bare `next(tokens)` in `tokens_to_spans` of rich 9.10.0 as found (StopIteration inside a generator
+                        becomes RuntimeError), false = repaired `except StopIteration: break` (fix 1d638e8, what /repo contains now).
 -/
 namespace RichModel.Syntax
 
